@@ -219,6 +219,9 @@ func (i *input) lex() {
 					Text:      content.String(),
 				})
 			}
+			// The string has been consumed completely; the next rune may start a
+			// comment and must not be skipped.
+			continue
 		default:
 			startLine := i.pos.line
 			var comment bytes.Buffer
@@ -228,6 +231,22 @@ func (i *input) lex() {
 				for {
 					if i.eof() {
 						return
+					}
+					// Look for the delimiters before consuming a rune, so that an
+					// empty comment and a nested comment right after the opening
+					// delimiter are recognized.
+					if i.lang.NestedComments() && i.match(start) {
+						comment.WriteString(start)
+						nesting++
+						continue
+					}
+					if i.match(end) {
+						if nesting > 0 {
+							comment.WriteString(end)
+							nesting--
+							continue
+						}
+						break
 					}
 					c := i.readRune()
 					comment.WriteRune(c)
@@ -250,6 +269,7 @@ func (i *input) lex() {
 					EndLine:   i.pos.line,
 					Text:      comment.String(),
 				})
+				continue // Do not skip the rune after the closing delimiter.
 			} else if i.singleLineComment() { // Single line comment
 				for {
 					if i.eof() {
